@@ -70,6 +70,11 @@ func main() {
 		for _, u := range res.run.Undecided {
 			fmt.Printf("PATCH-UNDECIDED property=%s %s\n", *prop, u)
 		}
+		if os.Getenv("DAWGSVET_NOTES") != "" {
+			for _, n := range res.run.Notes {
+				fmt.Printf("PATCH-NOTE property=%s %s\n", *prop, n)
+			}
+		}
 		os.Exit(res.code)
 	}
 	if *selftest {
